@@ -189,3 +189,54 @@ def _mk_container(rnd):
     c.image_array = [object() for _ in range(rnd.choice([0, 1, 3]))]
     c.signature_block = AbsPart(rnd.choice([16, 100, 344])) if rnd.random() < 0.6 else None
     return c
+
+
+# ---- image array entry: meta data word and the remaining flag readers invert their builders --------------------------------------------------
+IAE_OBJ = Union[Obj(ImageArrayEntry, flags=U32, image_meta_data=U32), Obj(ImageArrayEntryV2, flags=U32, image_meta_data=U32)]
+
+
+@contract("spsdk.image.ahab.ahab_iae:ImageArrayEntry.create_meta")
+def _(start_cpu_id: Range(0, 1023), mu_cpu_id: Range(0, 1023), start_partition_id: Range(0, 255)) -> int:
+    returns(start_cpu_id + mu_cpu_id * 1024 + start_partition_id * 1048576, label="cpu-mu-partition-in-their-fields")
+    pure()
+
+
+@contract("spsdk.image.ahab.ahab_iae:ImageArrayEntry.metadata_start_cpu_id")
+def _(self: IAE_OBJ) -> int:
+    returns(self.image_meta_data % 1024, label="bits-9-0")
+    pure()
+    sample_with(lambda rnd: {"self": _mk_iae(rnd)})
+
+
+@contract("spsdk.image.ahab.ahab_iae:ImageArrayEntry.metadata_mu_cpu_id")
+def _(self: IAE_OBJ) -> int:
+    returns(self.image_meta_data // 1024 % 1024, label="bits-19-10")
+    pure()
+    sample_with(lambda rnd: {"self": _mk_iae(rnd)})
+
+
+@contract("spsdk.image.ahab.ahab_iae:ImageArrayEntry.metadata_start_partition_id")
+def _(self: IAE_OBJ) -> int:
+    returns(self.image_meta_data // 1048576 % 256, label="bits-27-20")
+    pure()
+    sample_with(lambda rnd: {"self": _mk_iae(rnd)})
+
+
+@contract("spsdk.image.ahab.ahab_iae:ImageArrayEntry.flags_is_encrypted")
+def _(self: IAE_OBJ) -> bool:
+    returns((self.flags // (2 ** 12 if typed(self, ImageArrayEntryV2) else 2 ** 11)) % 2 == 1, label="encrypted-bit-of-the-container-version")
+    pure()
+    sample_with(lambda rnd: {"self": _mk_iae(rnd)})
+
+
+@contract("spsdk.image.ahab.ahab_iae:ImageArrayEntry.flags_boot_flags")
+def _(self: IAE_OBJ) -> int:
+    returns(self.flags // 65536 % 32768, label="bits-30-16")
+    pure()
+    sample_with(lambda rnd: {"self": _mk_iae(rnd)})
+
+
+def _mk_iae(rnd):
+    o = object.__new__(rnd.choice([ImageArrayEntry, ImageArrayEntryV2]))
+    o.flags, o.image_meta_data = rnd.getrandbits(32), rnd.getrandbits(32)
+    return o
